@@ -272,6 +272,50 @@ def bound_reading_loops() -> list[tuple[str, list[int], list[int]]]:
     return out
 
 
+def carried_overlap_loops() -> list[tuple[str, list[int], list[int]]]:
+    """Directed family: two carried variables, the value yielded for the first is computed before the last read of the first
+    block argument (the allocator shares one register between a block argument and the value yielded for it)."""
+    out = []
+    for op1, op2 in (("addi", "muli"), ("subi", "addi"), ("xori", "subi")):
+        for n in (2, 3):
+            for order in (0, 1):
+                body = [f"%y = arith.{op1} %acc, %k : i32", f"%w = arith.{op2} %x, %acc : i32"]
+                if order:
+                    body = [f"%y = arith.{op1} %x, %acc : i32", f"%w = arith.{op2} %y, %k : i32"]   # control: both arguments are dead before anything is defined
+                text = ("func.func @main(%x0 : i32, %k : i32) -> (i32, i32) {\n  %c0 = arith.constant 0 : index\n  %c1 = arith.constant 1 : index\n"
+                        f"  %n = arith.constant {n} : index\n"
+                        "  %r:2 = scf.for %i = %c0 to %n step %c1 iter_args(%x = %x0, %acc = %k) -> (i32, i32) {\n    "
+                        + "\n    ".join(body) + "\n    scf.yield %y, %w : i32, i32\n  }\n  func.return %r#0, %r#1 : i32, i32\n}\n")
+                out.append((text, [32, 32], [32, 32]))
+    return out
+
+
+def carried_arg_read_after_next_value_defined(module) -> bool:
+    """Does some scf.for read a carried block argument after the operation that defines the value yielded for it?"""
+    from xdsl.dialects import scf
+
+    for op in module.walk():
+        if not isinstance(op, scf.ForOp):
+            continue
+        body = op.body.block
+        ops = list(body.ops)
+        y = ops[-1]
+        for j, arg in enumerate(body.args[1:]):
+            if j >= len(y.operands):
+                break
+            d = y.operands[j].owner
+            while d is not None and d.parent is not body and not isinstance(d, type(body)):
+                d = d.parent_op()
+            if d is None or isinstance(d, type(body)) or d not in ops:
+                continue
+            p = ops.index(d)
+            for later in ops[p + 1:]:
+                for o in later.walk():
+                    if any(v is arg for v in o.operands):
+                        return True
+    return False
+
+
 def canon_snippets(rng, n: int) -> list[tuple[str, int]]:
     """riscv_func functions with constants at boundary values for `canonicalize` alone: (text, nargs)."""
     out = []
@@ -395,7 +439,7 @@ def run(ctx: Ctx):
     metas: list[dict[str, Any]] = []
     stats = {"pipeline_raised": 0, "asm_unsupported": 0, "source_unsupported": 0, "canon_raised": 0}
     raised_kinds: dict[str, int] = {}
-    directed = bound_reading_loops()
+    directed = bound_reading_loops() + carried_overlap_loops()
     for k in range((140 if q else 3000) + len(directed)):
         rng = ctx.rng(f"prog{k}")
         if k < len(directed):
@@ -430,7 +474,7 @@ def run(ctx: Ctx):
         inputs = serialize.input_tuples(widths, rng, 10 if q else 24)
         regs0 = {r: limbs32(0x51000000 + 77 * i) for i, r in enumerate(CALLEE)}
         cases.append({"kind": "compile", "A": progA, "codeA": [], "code": code, "nargs": len(widths), "nres": len(rws), "inputs": inputs, "regs0": regs0})
-        metas.append({"kind": "compile", "text": text, "asm": asm,
+        metas.append({"kind": "compile", "text": text, "asm": asm, "carried_overlap": carried_arg_read_after_next_value_defined(src),
                       "cmpi_preds": sorted(set(re.findall(r"arith.cmpi (\w+),", text))),
                       "uses_minmax_or_rounding_div": bool(re.search(r"arith\.(minsi|maxsi|minui|maxui|floordivsi|ceildivsi|ceildivui)", text))})
     n_compile = len(cases)
@@ -514,7 +558,8 @@ def run(ctx: Ctx):
         bad_preds = sorted(set(m["cmpi_preds"]) & {"sle", "sgt", "sge", "ult", "ugt", "uge"})
         ctx.violate(what, {"clause": clause.split(":")[0], "kind": m["kind"], "input": inp, "program": m["text"], "asm": m["asm"],
                            "uses_mislowered_cmpi_predicate": bool(bad_preds), "cmpi_preds": m["cmpi_preds"],
-                           "uses_minmax_or_rounding_div": m["uses_minmax_or_rounding_div"]}, clause=clause.split(":")[0])
+                           "uses_minmax_or_rounding_div": m["uses_minmax_or_rounding_div"],
+                           "carried_arg_read_after_next_value_defined": bool(m.get("carried_overlap"))}, clause=clause.split(":")[0])
     ctx.coverage["compiled_programs_using_callee_saved_registers"] = sum(1 for m in metas if m["kind"] == "compile" and re.search(r"\bs(\d|1[01])\b", m["asm"]))
     ctx.coverage["compiled_programs_with_stack_frame"] = sum(1 for m in metas if m["kind"] == "compile" and re.search(r"\b(sw|lw)\b", m["asm"]))
     ctx.coverage["compiled_programs_with_loops"] = sum(1 for m in metas if m["kind"] == "compile" and re.search(r"\bb(lt|ge|ne|eq)\b", m["asm"]))
